@@ -3,6 +3,8 @@ package core
 import (
 	"go/constant"
 	"go/token"
+	"sort"
+	"strings"
 
 	"golang.org/x/tools/go/ssa"
 )
@@ -54,6 +56,10 @@ type SignEnv struct {
 
 	// Bool (optional) fixes the value of boolean leaves (flags such as a direction field).
 	Bool func(v ssa.Value) Tri
+
+	// phi holds, for the path being explored, the values boolean phis took when their block
+	// was entered (so a flag computed earlier – `before := a && b` – is still known later).
+	phi map[*ssa.Phi]Tri
 }
 
 func (e *SignEnv) roleOf(v ssa.Value) string {
@@ -201,6 +207,9 @@ func (e *SignEnv) Eval(v ssa.Value, blk *ssa.BasicBlock, hist Hist, depth int) T
 			}
 		}
 	case *ssa.Phi:
+		if t, ok := e.phi[x]; ok && t != Unknown {
+			return t
+		}
 		if blk != nil && hist[0] != nil && x.Block() == blk {
 			for i, p := range blk.Preds {
 				if p == hist[0] {
@@ -285,39 +294,98 @@ func (e *SignEnv) callResult(f *ssa.Function, depth int) Tri {
 // environment.
 func (e *SignEnv) explore(f *ssa.Function, depth int, visit func(b *ssa.BasicBlock, hist Hist)) {
 	type st struct {
-		b *ssa.BasicBlock
-		h Hist
+		b   *ssa.BasicBlock
+		h   Hist
+		key string
 	}
+	type item struct {
+		st
+		phi map[*ssa.Phi]Tri
+	}
+	saved := e.phi
+	defer func() { e.phi = saved }()
 	seen := map[st]bool{}
-	work := []st{{f.Blocks[0], Hist{}}}
+	work := []item{{st{f.Blocks[0], Hist{}, ""}, nil}}
+	steps := 0
 	for len(work) > 0 {
-		s := work[len(work)-1]
+		it := work[len(work)-1]
 		work = work[:len(work)-1]
-		if seen[s] {
+		if seen[it.st] {
 			continue
 		}
-		seen[s] = true
+		seen[it.st] = true
+		steps++
+		if steps > 20000 {
+			// give up path sensitivity on pathological functions: keep exploring without phi values
+			it.phi, it.key = nil, ""
+		}
 		e.Visited++
-		visit(s.b, s.h)
-		if len(s.b.Instrs) == 0 {
+		e.phi = it.phi
+		visit(it.b, it.h)
+		if len(it.b.Instrs) == 0 {
 			continue
 		}
-		nh := s.h.push(s.b)
-		if ifi, ok := s.b.Instrs[len(s.b.Instrs)-1].(*ssa.If); ok {
-			switch e.Eval(ifi.Cond, s.b, s.h, depth) {
+		nh := it.h.push(it.b)
+		var succs []*ssa.BasicBlock
+		if ifi, ok := it.b.Instrs[len(it.b.Instrs)-1].(*ssa.If); ok {
+			switch e.Eval(ifi.Cond, it.b, it.h, depth) {
 			case True:
-				work = append(work, st{s.b.Succs[0], nh})
+				succs = []*ssa.BasicBlock{it.b.Succs[0]}
 			case False:
-				work = append(work, st{s.b.Succs[1], nh})
+				succs = []*ssa.BasicBlock{it.b.Succs[1]}
 			default:
-				work = append(work, st{s.b.Succs[0], nh}, st{s.b.Succs[1], nh})
+				succs = it.b.Succs
 			}
-			continue
+		} else {
+			succs = it.b.Succs
 		}
-		for _, n := range s.b.Succs {
-			work = append(work, st{n, nh})
+		for _, n := range succs {
+			// boolean phis of n take the value of the edge from it.b
+			np, nk := it.phi, it.key
+			idx := -1
+			for i, p := range n.Preds {
+				if p == it.b {
+					idx = i
+				}
+			}
+			copied := false
+			for _, in := range n.Instrs {
+				ph, ok := in.(*ssa.Phi)
+				if !ok {
+					break
+				}
+				if idx < 0 || ph.Type().String() != "bool" {
+					continue
+				}
+				e.phi = it.phi
+				v := e.Eval(ph.Edges[idx], it.b, it.h, depth)
+				if !copied {
+					cp := make(map[*ssa.Phi]Tri, len(it.phi)+1)
+					for k, t := range it.phi {
+						cp[k] = t
+					}
+					np, copied = cp, true
+				}
+				np[ph] = v
+			}
+			if copied {
+				nk = phiKey(np)
+			}
+			work = append(work, item{st{n, nh, nk}, np})
 		}
 	}
+}
+
+// phiKey is a canonical rendering of the known phi values (part of the exploration state).
+func phiKey(m map[*ssa.Phi]Tri) string {
+	names := make([]string, 0, len(m))
+	for p, t := range m {
+		if t != Unknown {
+			names = append(names, p.Name()+"="+string(rune('0'+int(t))))
+		}
+	}
+	sort.Strings(names)
+	return strings.Join(names, "|")
 }
 
 // Reaches reports whether target can be reached from f's entry under the environment.
